@@ -62,7 +62,7 @@ func (g *seqGen) value(d ColDesc, k string) any {
 	switch d.Kind {
 	case "int":
 		if k == "mrg" {
-			return 1 + g.rnd.Intn(3)
+			return g.rnd.Intn(4) // (a zero delta is a merge like any other: an empty cell becomes present with the merged value)
 		}
 		return g.rnd.Intn(10)
 	case "str":
